@@ -46,7 +46,7 @@ HOSTILES = {
     'unroll': ['unroll_neg_step', 'loopvar_after', 'unroll_cycle'],
     'fusion': ['loopvar_after'],
     'fission': ['loopvar_after', 'fission_promote_lb', 'fission_array_shape'],
-    'interchange': ['loopvar_after'],
+    'interchange': ['loopvar_after', 'interchange_project_perm'],
     'split': ['split_empty_step', 'loopvar_after', 'block_start_ne_1'],
 }
 KINDS = ['unroll', 'fusion', 'fission', 'interchange', 'split']
@@ -68,6 +68,8 @@ def case_flags(rng, idx):
             f['block_arrays'] = False
         if f['hostile'] == 'fission_promote_lb':
             f['fission_promote'] = False      # scalar promoted by pragma only; arrays stay as they are
+        if f['hostile'] == 'interchange_project_perm':
+            f['project_bounds'] = True
         if f['hostile'] == 'fission_array_shape':
             f['fission_promote'] = True
     return f
